@@ -206,7 +206,8 @@ func (e *Engine) callFn(st *State, fn *ssa.Function, args []Value, bind []Value,
 		outs = live
 	}
 	if mergeOK && len(outs) > 1 {
-		if m, ok := e.mergeOutcomes(entryPC, entryTape, entryObs, nPending, mark, outs); ok {
+		e.mergeLoss = false
+		if m, ok := e.mergeOutcomes(entryPC, entryTape, entryObs, nPending, mark, outs); ok && !e.mergeLoss {
 			e.rep.Merged++
 			return []Outcome{m}
 		}
